@@ -64,6 +64,10 @@ def prefill_points(n, g):
     return pts
 
 
+def job_opts(jobs, tid):
+    return next(j for j in jobs if j[0] == tid)[7]
+
+
 def jobs_for(pid, rep):
     thorough = rep.tier == "thorough"
     rng = random.Random(rep.seed * 613 + int(pid[1:]))
@@ -149,12 +153,49 @@ def jobs_for(pid, rep):
                 ops.append({"op": "remove", "q": g.atom(), "m": concretise.NONE})
             add(ops, i % 2, {"io": True, "prefill": True, "prefill_points": prefill_points(size, g)})
         if pid == "C16":
+            # a batch whose producer reads the (large) database between two elements: the file position is left mid-file
+            # while the insert is under way.  No I/O proxies here (the producer's reads are not the insert's); the contents decide.
+            for i in range(6 if thorough else 2):
+                g = gen.Gen(rng.randrange(1 << 30), focus=focus, handles=0.0)
+                ops = []
+                for _ in range(3):
+                    ops.append({"op": "insert_multiple", "ps": [g.point() for _ in range(g.r.choice([2, 3]))], "m": concretise.NONE, "bad": 0, "producer": 1})
+                    ops.append({"op": "count", "q": g.atom(), "m": concretise.NONE})
+                ops.append({"op": "reopen"})
+                add(ops, i % 2, {"prefill": True, "prefill_points": prefill_points(220 + 40 * i, g)})
+            # flush_on_insert=False, a rewrite that keeps some rows (partial remove, effective update) DIRECTLY followed by inserts
+            for i in range(12 if thorough else 4):
+                g = gen.Gen(rng.randrange(1 << 30), focus=focus, handles=0.0)
+                ops, t = [], 0
+                for _ in range(g.r.choice([3, 4, 5])):
+                    ops.append({"op": "insert", "p": g.point(t), "m": concretise.NONE, "compact": 0})
+                    t += 1
+                for rnd in range(2):
+                    tq = {"k": "time", "key": 0, "key2": 0, "mf": 0, "op": "eq", "v": g.r.randrange(t), "tf": 0}
+                    if (i + rnd) % 2:
+                        ops.append({"op": "remove", "q": tq, "m": concretise.NONE})
+                    else:
+                        ops.append({"op": "update", "q": tq, "m": concretise.NONE, "fail": 0,
+                                    "u": {"tk": 0, "tv": 0, "mk": 1, "mv": 3, "tgk": 0, "tgv": [], "fdk": 0, "fdv": [], "utg": [], "ufd": []}})
+                    ops.append({"op": "insert", "p": g.point(t), "m": concretise.NONE, "compact": 0})
+                    ops.append({"op": "insert_multiple", "ps": [g.point(t + 1), g.point(t + 2)], "m": concretise.NONE, "bad": 0})
+                    t += 3
+                ops.append({"op": "reopen"})
+                add(ops, i % 2, {"io": True, "nostore": True, "csv": {"flush_on_insert": False}})
             # flush_on_insert=False: appends must still land at the end of what was written before
             for i in range(60 if thorough else 12):
-                g = gen.Gen(rng.randrange(1 << 30), focus={"insert": 12, "insert_multiple": 4, "remove": 0, "update": 0, "update_all": 0, "drop": 0, "remove_all": 0, "reindex": 0, "reopen": 0}, handles=0.0)
-                ops = g.history(14, p_read=0.25) + [{"op": "reopen"}]
-                add(ops, i % 2, {"io": True, "nostore": True, "csv": {"flush_on_insert": False}})
+                rewrites = 3 if i % 2 else 0      # every other history also rewrites the file (remove / update) between the inserts
+                g = gen.Gen(rng.randrange(1 << 30), focus={"insert": 12, "insert_multiple": 4, "remove": rewrites, "update": rewrites, "update_all": 0, "drop": 0, "remove_all": 0, "reindex": 0, "reopen": 0}, handles=0.0)
+                ops = g.history(14, p_read=0.25 if not rewrites else 0.1) + [{"op": "reopen"}]
+                add(ops, (i // 2) % 2, {"io": True, "nostore": True, "csv": {"flush_on_insert": False}})
         if pid == "C12":
+            # other csv dialects and encodings, CSV-hostile text: the rewritten file must be in the database's own format at every boundary
+            for i in range(60 if thorough else 12):
+                g = gen.Gen(rng.randrange(1 << 30), focus=focus, handles=0.0, regex=False)
+                csvo = dict(DIALECTS[1 + i % 3])
+                if i % 4 == 3:
+                    csvo["encoding"] = "utf-16"
+                add(g.history(g.r.choice([8, 14]), p_read=0.2), i % 2, {"io": True, "csv": csvo, "theme": "csv-hostile"})
             # the database path is a symbolic link
             for i in range(30 if thorough else 8):
                 g = gen.Gen(rng.randrange(1 << 30), focus=focus, handles=0.0)
@@ -272,6 +313,10 @@ def run(pid):
             own = OWNER.get(err["clause"]) or traces.owner(ev["a"], err["clause"], ev["exc"])
             if pid == "C12" and err["clause"] in ("store", "file") and ev["a"]["op"] in ("insert", "insert_multiple") and not ev["exc"]:
                 own = "C12"      # a point that is not on file when its insert has returned is lost by a crash right after it
+            if pid == "C16" and err["clause"] in ("file", "store") and ev["a"]["op"] == "reopen" and (job_opts(jobs, tid).get("csv") or {}).get("flush_on_insert") is False:
+                own = "C16"      # flush_on_insert=False: where the buffered appends landed only shows when the file is flushed at close
+            if pid == "C16" and err["clause"] == "store" and ev["a"]["op"] in ("insert", "insert_multiple") and not ev["exc"] and "io" not in ev:
+                own = "C16"      # (jobs without I/O proxies) an insert that returned must have added its points and nothing else
             if own != pid and not (pid == "C04" and err["clause"] in ("store",) and ev["a"]["op"] in ("insert", "insert_multiple", "reopen")):
                 other[own] = other.get(own, 0) + 1
                 continue
